@@ -134,8 +134,8 @@ theorem hashOpc_exec (h : NoLimits env) (k : HashKind) (a : Bytes) (r : List Byt
 
 /-- the interpreter's oracles agree with Script's environment -/
 structure Agree (env : Env) (ie : IEnv) : Prop where
-  /-- whatever `verify_sersig` accepts is a valid signature for a well-formed key -/
-  sig : ∀ pk sg, ie.verifySig pk sg = true → env.sigOk pk sg = true ∧ pubkeyOk env pk = true
+  /-- whatever `verify_sersig` + the caller's verifier accept is a valid signature for Script -/
+  sig : ∀ pk sg, ie.verifySig pk sg = true → env.sigOk pk sg = true
   key : ∀ pk, ie.keyParse pk = true → pubkeyOk env pk = true
   h160 : ∀ b, ie.hash160 b = env.hash .hash160 b
   hash : ∀ k b, ie.hash k b = env.hash (hkOp k) b
@@ -209,5 +209,19 @@ theorem older_ok (ag : Agree env ie) {n : Nat}
     · omega
     · right; omega
   · rcases e1 with a | a <;> rcases e2 with b | b <;> omega
+
+/-- `iter_custom` / `iter_assume_sigs`: the same verifier `f` on both sides (the caller's closure
+as the interpreter's oracle and as Script's `sigOk`) keeps the agreement, whatever `f` is -/
+theorem Agree.withVerifier {env : Env} {ie : IEnv} (ag : Agree env ie) (f : Bytes → Bytes → Bool) :
+    Agree { env with sigOk := f } { ie with verifySig := f } where
+  sig := fun _ _ h => h
+  key := fun pk h => by
+    have := ag.key pk h
+    simpa [pubkeyOk] using this
+  h160 := ag.h160
+  hash := ag.hash
+  lockTime := ag.lockTime
+  sequence := ag.sequence
+  version := ag.version
 
 end MsVerif.InterpSound
